@@ -23,7 +23,11 @@ import c09_impl as impl
 THEOREMS = ["C09_fractions_in_unit_interval", "C09_fractions_sum_to_one", "C09_pairwise_balance",
             "C09_closed_form_solves_code_matrix", "C09_exact_solution_unique", "C09_lsq_minimiser_is_closed_form",
             "C09_density_scaling", "C09_neutrality", "C09_donor_matters", "C09_zero_donor_is_no_donor",
-            "C09_entry_points_agree_partial", "C09_checker_evaluates_model"]
+            "C09_entry_points_agree_partial", "C09_checker_evaluates_model",
+            "C09_matrix_solution_unique", "C09_scale_covariant", "C09_neutral_fraction_monotone_in_donor",
+            "C09_densities_satisfy_balance", "C09_neutrality_shape", "C09_species_order_irrelevant",
+            "C09_interpolant_through_knots", "C09_interpolant_is_blend", "C09_interpolated_fractions_conserve",
+            "C09_interpolated_densities_conserve"]
 
 KNOWN_KEY = "c09:lsq-illconditioned"
 
@@ -155,10 +159,20 @@ def run(ctx):
         "surfaces only, relative 1e-3",
     ]
     ctx.rebuild()
-    ctx.proofs("Properties.C09", THEOREMS, extra_modules=("Model.C09_Check", "Proofs.C09_Check"))
+    ctx.proofs("Properties.C09", THEOREMS, extra_modules=("Model.C09_Check", "Proofs.C09_Check", "Model.C09_Interp", "Proofs.C09_More", "Model.C09_Fill"))
 
+    # ---- translator tie: the matrix-filling statements of the CURRENT source, as data, against Model.entry ---------------
+    import c09_fill
+    from common import REPO, coqc
+    try:
+        ups = c09_fill.translate(os.path.join(REPO, "cherab", "tools", "plasmas", "ionisation_balance.py"))
+        fok, fout = coqc(ctx.write_gen("Fill.v", c09_fill.to_coq(ups)), timeout=600)
+        ctx.obligation("Gen tie lemma source_fill_is_model_entry (%d statements of _fractional_abundance_point, Z = 1..18)" % len(ups),
+                       "tie", fok and "Closed under the global context" in fout, fout[-1500:])
+        ctx.coverage["translated_statements"] = [{"line": u["line"], "source": u["src"]} for u in ups]
+    except c09_fill.TranslateError as ex:
+        ctx.obligation("translator: _fractional_abundance_point has the recognised shape", "tie", False, str(ex))
     import cherab
-    from common import REPO
     assert list(cherab.__path__) == [REPO + "/cherab"], cherab.__path__
     from cherab.tools.plasmas import ionisation_balance as ib
     assert os.path.realpath(ib.__file__).startswith(os.path.realpath(REPO)), ib.__file__
@@ -279,8 +293,8 @@ def run(ctx):
                         sa, sb = le["n_el"]
                     else:
                         sa = sb = le["scale"]
-                    outs.append("OLerp tol_interp %s (model_fractions %s) %s %s %s" % (
-                        qlit(le["w"]), names[le["other"]], qlit(sa), qlit(sb), qlist(le["values"])))
+                    outs.append("OLerp tol_interp %s %s %d%%nat (model_fractions %s) %s %s %s" % (
+                        qlist(le["knots"]), qlit(le["x"]), le["k"], names[le["other"]], qlit(sa), qlit(sb), qlist(le["values"])))
                     dist["lerp_values"] += 1
                 n_outs += len(outs)
                 checks.append("check_point %s [%s]" % (names[k], ";\n    ".join(outs)))
@@ -415,6 +429,44 @@ def run(ctx):
                    not bad_forms, str(bad_forms))
     dist["argument_form_outcomes"] = {k: v[0] for k, v in form_out.items()}
 
+    # ---- argument policy: Coq model of _assign_donor_density / _parameters_to_numpy vs the implementation -----------------
+    import re
+    prow, pkeys = impl.policy_table(ib)
+    ptxt = ("Require Import Cherab.Common.Qx Cherab.Model.C09_Balance Cherab.Model.C09_Interp.\n"
+            "Definition enc (o : outcome) : list nat := match o with OkShape s => 1%nat :: s | ErrValue => [2%nat] | ErrOther => [3%nat] end.\n"
+            "Eval vm_compute in (map enc [\n" + ";\n".join(r["coq"] for r in prow) + "]).\n"
+            "Eval vm_compute in [" + "; ".join("ion_keys %d; rec_keys %d" % (zz, zz) for zz in sorted(pkeys)) + "].\n"
+            "Require Import Cherab.Model.C09_Check.\n"
+            "Eval vm_compute in (map (fun q => (Qnum q, Zpos (Qden q))) (map Qred [res_threshold; tol_resolved; tol_unresolved; tol_interp])).\n")
+    pres = coqc_many([ctx.write_gen("policy.v", ptxt)], timeout=600)
+    pok, pout = list(pres.values())[0]
+    pvals = parse_evals(pout) if pok else []
+    pbad = []
+    if pok and len(pvals) == 3:
+        nested = lambda txt: [[int(t) for t in re.findall(r"\d+", m)] for m in re.findall(r"\[([^\[\]]*)\]", txt)]
+        model_codes, model_keys = nested(pvals[0]), nested(pvals[1])
+        if len(model_codes) != len(prow):
+            pbad.append("model returned %d outcomes for %d forms" % (len(model_codes), len(prow)))
+        for r, m in zip(prow, model_codes):
+            if (m != [3] and r["impl"] != m) or (m == [3] and r["impl"][0] not in (2, 3)):
+                pbad.append("%s: implementation %s, model %s (1 :: shape = accepted, 2 = ValueError, 3 = other error)" % (r["form"], r["impl"], m))
+        want_keys = [k for zz in sorted(pkeys) for k in (pkeys[zz][0], pkeys[zz][1])]
+        if want_keys != model_keys or any(pkeys[zz][2] != pkeys[zz][1] for zz in pkeys):
+            pbad.append("charges requested by get_rates_*: implementation %s, model %s" % (want_keys, model_keys))
+    if pok and len(pvals) == 3:
+        nums = [int(t) for t in re.findall(r"-?\d+", pvals[2])]
+        coq_consts = [F(nums[i], nums[i + 1]) for i in range(0, len(nums) - 1, 2)]
+        py_consts = [impl.RES_THRESHOLD, F(1, 10 ** 7), F(1), F(1, 10 ** 8)]
+        same = (coq_consts == py_consts and [float(c) for c in coq_consts[1:]] == [impl.TOL_RESOLVED, impl.TOL_UNRESOLVED, impl.TOL_INTERP])
+        ctx.obligation("tolerances used by the search are the constants of Model/C09_Check.v (read back from Coq)", "tie", same,
+                       "coq %s python %s" % (coq_consts, py_consts))
+    ctx.obligation("argument policy of fractional_abundance + charges of get_rates_*: model (Coq) vs implementation (%d forms)" % len(prow),
+                   "correspondence", pok and len(pvals) == 3 and not pbad, pout[-500:] if not pok else str(pbad[:5]))
+    for b in pbad[:2]:
+        ctx.violation("c09:argument-policy", "argument handling differs from the model: " + b, {"detail": pbad[:20]}, found=False)
+    dist["argument_policy"] = {"forms": len(prow), "accepted": sum(1 for r in prow if r["impl"][0] == 1),
+                               "ValueError": sum(1 for r in prow if r["impl"] == [2]), "other_error": sum(1 for r in prow if r["impl"] == [3])}
+
     # ---- ill-conditioned tables: recorded finding ------------------------------------------------------
     del SCALE_PROBES[:]
     n_ill, ill = ill_conditioned_probe(ctx, ib)
@@ -444,7 +496,14 @@ def run(ctx):
                       "unresolved points (some exact fraction < 1e-12: lsq_linear loses accuracy, same root cause as the recorded finding)":
                           "AMBIGUOUS: solver outputs not compared (tolerance 1); matrix still compared; %d points, worst deviation this run %.3g"
                           % (n_class["unresolved"], worst["unresolved"]),
-                      "matrix entries": "relative 2^-46, zeros exact, rhs exact",
+                      "matrix entries": "captured lsq_linear argument vs Model.balance_matrix: relative 2^-46, zeros exact, rhs exact",
+                      "matrix-filling statements": "translated from the current source on every run; kernel-checked lemma "
+                                                   "source_fill_is_model_entry (exact, Z = 1..18, every cell, with / without CX)",
+                      "argument policy": "1792 argument-form combinations of fractional_abundance: accepted shape / ValueError / other error, "
+                                         "exact comparison with Model.fractional_args evaluated by Coq; charges of get_rates_* exact",
+                      "interpolation between knots": "segment and weight located by the model (Model/C09_Interp.locate) from the knots and x; "
+                                                     "segment index exact, values as for fractions +1e-8",
+                      "search tolerances": "read back from the Coq constants on every run",
                       "interpolated values": "+1e-8", "neutrality charge sum": "relative 2^-40 (Coq) / 1e-9 (search)"},
         "partial": ["C09_entry_points_agree_partial: interpolators and equilibrium mapping are raysect/EFITEquilibrium objects outside "
                     "the model; they are tied by the correspondence at knots and by linear interpolation between the model's knot values",
